@@ -36,8 +36,8 @@ P6 == [sets |-> <<"heavy", "heavy", "light">>,
        tasks |-> <<T(1, <<>>), T(2, <<>>), T(3, <<O("wait", 1)>>), T(3, <<O("wait", 2)>>)>>,
        main |-> <<O("sched", 1), O("sched", 2), O("sched", 3), O("sched", 4), O("wait", 3), O("wait", 1), O("wait", 2)>>]
 
-Progs == <<P1, P2, P3, P4, P5, P6>>
-C(p, nw, wps, inl) == [nw |-> nw, prog |-> Progs[p], wps |-> wps, inl |-> inl]
+MCProgs == <<P1, P2, P3, P4, P5, P6>>
+C(p, nw, wps, inl) == [nw |-> nw, p |-> p, wps |-> wps, inl |-> inl]
 
 (* the original waiters: the cross-wait programs starve, the pure fork-join / future ones do not *)
 CfgNoFixCross == {C(1, 1, FALSE, FALSE)}
@@ -45,6 +45,7 @@ CfgNoFixAll == {C(p, nw, FALSE, FALSE) : p \in {1, 5, 6}, nw \in 1 .. 2}
 CfgNoFixForkJoin == {C(p, nw, FALSE, inl) : p \in {2, 3, 4}, nw \in 0 .. 2, inl \in BOOLEAN}
 (* the repaired waiters: every program, every pool size *)
 CfgCover == {C(1, 1, TRUE, FALSE)}
-CfgQuick == {C(p, nw, TRUE, inl) : p \in 1 .. 6, nw \in 0 .. 2, inl \in {FALSE}} \cup {C(p, 1, TRUE, TRUE) : p \in 1 .. 6}
+CfgQuick == {C(p, 1, TRUE, FALSE) : p \in 1 .. 6} \cup {C(p, 2, TRUE, FALSE) : p \in {1, 3, 5}}
+            \cup {C(p, 0, TRUE, FALSE) : p \in {1, 3, 4}} \cup {C(p, 1, TRUE, TRUE) : p \in {2, 4}}
 CfgThorough == {C(p, nw, TRUE, inl) : p \in 1 .. 6, nw \in 0 .. 3, inl \in BOOLEAN}
 =============================================================================
